@@ -125,6 +125,83 @@ def check_write_block(ctx):
                       "raw bytes are written with type none", "raw block may be written with the snappy type")
 
 
+def check_filter_builder(ctx):
+    """An empty filter answers "no" to every key (ldb_filter_matches): the builder
+    may emit one only for a window without keys."""
+    f = ctx.fn("ldb_filtergen_generate", "src/table/filter_block.c")
+    g = xgraph(ctx.P, f)
+    nk = [e for b, i, e in f.events("decl") if e["n"] == "num_keys"]
+    ctx.check(bool(nk) and key(nk[0].get("init")) == "fb->start.length", "T2-filter-empty-only-without-keys", "num_keys", f.name, f.loc,
+              "num_keys is the number of pending keys", "num_keys computed as %s" % (key(nk[0].get("init")) if nk else None))
+    bb = find_calls(f, "ldb_bloom_build") + [x for x in f.events("call") if "ldb_bloom_build" in (x[2].get("mac") or ())]
+    ctx.require(bool(bb), "ldb_filtergen_generate: policy build call not found")
+    from ..rules import check_automaton, BAD, holds_exact
+
+    def step(q, e, st, b, i):
+        if q == BAD:
+            return q
+        if e["e"] == "call" and (e.get("f") == "ldb_bloom_build" or "ldb_bloom_build" in (e.get("mac") or ())):
+            return 1
+        if e["e"] == "ret" and q == 0:
+            return BAD
+        return q
+
+    def edge(q, lit):
+        if q == 0 and lit is not None and lit[0] not in ("case", "default"):
+            from ..paths import norm_literal
+            for a in norm_literal(lit[0], lit[1]):
+                if a in (("==", "num_keys", "0"), ("==", "fb->start.length", "0")):
+                    return 2
+        return q
+    check_automaton(ctx, "T2-filter-empty-only-without-keys", "fast-path", f, 0, step, edge,
+                    "a filter is emitted without consulting the policy only when the window holds no key at all")
+    ak = ctx.fn("ldb_filtergen_add_key", "src/table/filter_block.c")
+    ps = find_calls(ak, "ldb_array_push")
+    ctx.check(len(ps) == 1 and argkey(ps[0][2], 0) == "&fb->start", "T2-filter-empty-only-without-keys", "every-key-counted", ak.name, ak.loc,
+              "every added key (also an empty one) is recorded in fb->start", "key bookkeeping changed")
+
+
+def check_snappy_literal(ctx):
+    """Literal length encodings: a length stored in k bytes is below 2^(8k)."""
+    f = ctx.fn("emit_literal", "src/util/snappy.c")
+    g = xgraph(ctx.P, f)
+    tags = {}
+    for b, i, e in f.events("asg"):
+        r = strip_casts(e["rhs"])
+        c = const_val(r)
+        if c is not None and (c & 3) == 0 and (c >> 2) in (60, 61, 62, 63):
+            tags[c >> 2] = (b, i, e)
+    ctx.require(60 in tags, "emit_literal: tag 60 store not found")
+    last = max(tags)
+    for t, (b, i, e) in sorted(tags.items()):
+        nbytes = t - 59
+        atoms = g.must_at(b, i)
+        # the widest form has no local upper bound: literals never exceed one encoder block (checked below)
+        ok = holds(atoms, (">=", "n", 60)) and (t == last or holds(atoms, ("<", "n", 1 << (8 * nbytes))))
+        ctx.check(ok, "T2-snappy-literal-length", "tag%d" % t,
+                  f.name, site(f, e), "length stored in %d byte(s) is < 2^%d" % (nbytes, 8 * nbytes),
+                  "literal length tag %d chosen under %s" % (t, fmt_atoms(atoms)))
+    enc = ctx.fn("ldb_snappy_encode", "src/util/snappy.c")
+    sizes = [const_val(e["a"][2]) if const_val(e["a"][2]) is not None else key(e["a"][2]) for b, i, e in find_calls(enc, "encode_block")]
+    genc = xgraph(ctx.P, enc)
+    okb = True
+    for b, i, e in find_calls(enc, "encode_block"):
+        c = const_val(e["a"][2])
+        if c is not None:
+            okb = okb and c <= (1 << (8 * (last - 59)))
+        else:
+            okb = okb and holds(genc.must_at(b, i), ("<", key(e["a"][2]), 1 << (8 * (last - 59))))
+    ctx.check(okb, "T2-snappy-literal-length", "block-bound", enc.name, enc.loc,
+              "one encoder block (and so one literal) is at most 2^%d bytes" % (8 * (last - 59)),
+              "encoder block sizes %s can exceed what the widest literal form stores" % sizes)
+    short = [(b, i, e) for (b, i, e) in f.events("asg") if key(e["rhs"]).startswith("((n << 2)")]
+    ctx.check(len(short) == 1 and holds(g.must_at(short[0][0], short[0][1]), ("<", "n", 60)), "T2-snappy-literal-length", "inline", f.name, f.loc,
+              "lengths below 60 are stored in the tag byte", "inline literal length guard changed")
+    nd = [e for b, i, e in f.events("decl") if e["n"] == "n"]
+    ctx.check(bool(nd) and key(nd[0].get("init")) == "(xn - 1)", "T2-snappy-literal-length", "n=len-1", f.name, f.loc,
+              "the encoded value is length - 1", "n computed as %s" % (key(nd[0].get("init")) if nd else None))
+
+
 def check_footer(ctx):
     w = ctx.fn("ldb_footer_write", FMT)
     hw = [argkey(e, 1) for b, i, e in sorted(find_calls(w, "ldb_handle_write"), key=lambda x: _pos(x[2]))]
